@@ -1021,7 +1021,7 @@ pagesPut(Page *pg, Length count)
  ****************************************************************************/
 
 struct Section {
-	short		pgCount;	/* Number of pages in section. */
+	int		pgCount;	/* Number of pages in section. */
 	short		qmLog;		/* base 2 log of size, if integral */
 #ifdef STO_DIVISION_BY_LOOKUP
 	UByte		qmDiv;		/* division table if !qmLog */
@@ -1119,7 +1119,7 @@ sectPrepare(Page *p, Length npages, Length sz, int isFixed)
 
 	lgWordSize = 0;
 	for (i = sizeof(Pointer); i > 1; i = i>>1) lgWordSize++;
-	assert(npages < (1<<16));
+	assert(npages < (1UL<<31));
 	szixix	       = (sz <= FixedSizeMax) ? sz : 0;
 	x->pgCount     = npages;
 	x->qmSize      = sz;
